@@ -191,8 +191,6 @@ func suiteConvertPlain(R *runner, r *rng) {
 
 // pairs for which the library's conversion of STYLED sources is not the conversion through the plain view, with the
 // reason (what the source reader sets that the destination writer emits)
-// pairs whose styled conversion has its own model (driver suite name): registered by the destination's harness file
-var plainStyledModels = map[string]string{}
 
 var plainStyledSkipPairs = map[string]string{
 	"srt->srt": "same format: the markup is kept (C01)",
@@ -299,20 +297,12 @@ func suiteConvertPlainStyled(R *runner, r *rng) {
 			for _, dst := range plainCodecs {
 				pair := src.name + "->" + dst.name
 				if suite, ok := plainStyledModels[pair]; ok {
-<<<<<<< HEAD
 					// a model of what the destination writer sees of this source's cues exists: compare the bytes with it
 					s2, _ := src.read(doc)
 					var out bytes.Buffer
 					o := &obs{Suite: suite, Group: "styled." + pair, Input: (&enc{}).n(src.code).bytes(doc).String(), NT: true,
 						Human: map[string]interface{}{"source": src.name, "destination": dst.name, "document": string(doc)}}
 					R.count("styled." + pair)
-=======
-					s2, _ := src.read(doc)
-					var out bytes.Buffer
-					o := &obs{Suite: suite, Group: "conv.styled." + pair, Input: (&enc{}).bytes(doc).String(), NT: true,
-						Human: map[string]interface{}{"source": src.name, "destination": dst.name, "document": string(doc)}}
-					R.count("conv.styled." + pair)
->>>>>>> agent-stl
 					var werr error
 					p := safely(func() { werr = dst.write(s2, &out) })
 					switch {
